@@ -21,12 +21,12 @@ TARGETS = ['valjean.gavroche.diagnostics.stats:classification_counts', 'valjean.
            'valjean.javert.rst:Rst.format_result', 'valjean.fingerprint:fingerprint',
            'valjean.gavroche.stat_tests.student:TestResultStudent.oracles', 'valjean.gavroche.test:TestEqual.evaluate']
 OPS = ['bool', 'oracles', 'counts', 'table', 'fulltable', 'plot', 'full', 'rst', 'fingerprint', 'deepcopy', 'pickle']
-BOUNDS = {'quick': {'kinds': KINDS, 'datasets': '1-d 3 bins (1 or 2 compared datasets, named or anonymous); 2-d (2,2) for Student',
+BOUNDS = {'quick': {'kinds': KINDS + ['external (user-made templates with units)'], 'datasets': '1-d 3 bins (1 or 2 compared datasets, named or anonymous); 2-d (2,2) for Student',
                     'failing pattern': 'every subset of bins (solver-chosen)', 'operations': 'sequences of 2 out of ' + ', '.join(OPS),
                     'verbosity': 'all 6 levels'},
           'thorough': {'kinds': KINDS, 'datasets': 'as quick + scalar and 2-d with 2 compared datasets (single operations for the latter)',
                        'operations': 'sequences of 2 at all 6 verbosity levels; sequences of 3 at the lowest / highest verbosity (1-d, one dataset)'}}
-ASSUMPTIONS = ['cell values are concrete distinct numbers, optionally (solver-chosen, 1-d single-dataset jobs) NaN in the first failing bin; the failing pattern, result kind, verbosities and operation sequence are solver-chosen',
+ASSUMPTIONS = ['cell values are concrete distinct numbers, optionally (solver-chosen, 1-d single-dataset jobs) NaN in the first failing bin and / or big-endian arrays; the failing pattern, result kind, verbosities and operation sequence are solver-chosen',
                'plot representation = plot templates only (no matplotlib rendering)',
                'pickle / deepcopy act on concrete values (C boundary)',
                'the baseline snapshot is taken after one call of the cheap observers (bool, oracles, counts), so memoisation attributes may exist']
@@ -64,7 +64,9 @@ def apply_op(ex, res, op, step, few_verbs=False):
         Representation(rep, verbosity=v)(res)
     elif op == 'rst':
         v = verbs[ex.choice(len(verbs), f'verb{step}')]
-        Rst(Representation(FullTableRepresenter(), verbosity=v)).format_result(res)
+        # external (user-made) results are represented by the full representer only
+        rep = FullRepresenter() if type(res).__name__ == 'TestResultExternal' else FullTableRepresenter()
+        Rst(Representation(rep, verbosity=v)).format_result(res)
     elif op == 'fingerprint':
         fingerprint(res.test)
     elif op == 'deepcopy':
@@ -105,7 +107,7 @@ def _job(kind, shape, nds, named, nops, timeout_ms, seed=0, few_verbs=False):
 def jobs(tier):
     out = []
     nops = 2
-    for kind in KINDS:
+    for kind in KINDS + ['external']:
         if kind in ('equal', 'approx', 'student', 'bonferroni', 'holm'):
             combos = [('1d', 1, False), ('1d', 2, True)]
             if kind == 'student':
